@@ -422,27 +422,49 @@ Proof.
   eapply parse_ragged_nonneg; [|exact P]. destruct (fst cs); [exact I | apply zlen_nonneg].
 Qed.
 
+Lemma append_columns_c_gen_ok atomic d t m cs t' :
+  append_columns_c_gen atomic d t m cs = (t', Ok tt) -> append_columns_c d t m cs = (t', Ok tt).
+Proof.
+  unfold append_columns_c_gen. destruct atomic; [|auto].
+  destruct (precheck_offsets m (snd cs)); simpl; intros H; try exact H; inversion H.
+Qed.
+
+(* whichever variant of the code (pinned / F14 repaired) *)
+Theorem append_columns_gen_rep bchk atomic d t rows cs t' :
+  TRep d t rows -> order_ok d -> append_columns_gen bchk atomic d t cs = (t', Ok tt) ->
+  exists m, parse_cols d cs = Ok m /\ TRep d t' (rows ++ rows_of_cols (Z.to_nat m) cs).
+Proof.
+  intros R O H. unfold append_columns_gen in H.
+  destruct (parse_cols d cs) as [m| | |] eqn:P; try (inversion H; fail).
+  destruct (parse_cols_Ok _ _ _ P) as [Hm L]. exists m. split; [reflexivity|].
+  destruct (if bchk then precheck_offsets m (snd cs) else Ok tt); try (inversion H; fail).
+  apply append_columns_c_gen_ok in H.
+  eapply append_columns_c_rep; eassumption.
+Qed.
+
+Theorem set_columns_gen_rep bchk atomic d t rows cs t' :
+  TRep d t rows -> order_ok d -> set_columns_gen bchk atomic d t cs = (t', Ok tt) ->
+  exists m, parse_cols d cs = Ok m /\ TRep d t' (rows_of_cols (Z.to_nat m) cs).
+Proof.
+  intros R O H. unfold set_columns_gen in H.
+  destruct (parse_cols d cs) as [m| | |] eqn:P; try (inversion H; fail).
+  destruct (parse_cols_Ok _ _ _ P) as [Hm L]. exists m. split; [reflexivity|].
+  destruct (if bchk then precheck_offsets m (snd cs) else Ok tt); try (inversion H; fail).
+  destruct (clear t) as [t0| | |] eqn:C; try (inversion H; fail).
+  pose proof (clear_rep _ _ _ _ R C) as R0.
+  apply append_columns_c_gen_ok in H.
+  apply (append_columns_c_rep _ _ _ _ _ _ R0 O Hm L H).
+Qed.
+
 Theorem append_columns_rep d t rows cs t' :
   TRep d t rows -> order_ok d -> append_columns d t cs = (t', Ok tt) ->
   exists m, parse_cols d cs = Ok m /\ TRep d t' (rows ++ rows_of_cols (Z.to_nat m) cs).
-Proof.
-  intros R O H. unfold append_columns in H.
-  destruct (parse_cols d cs) as [m| | |] eqn:P; try (inversion H; fail).
-  destruct (parse_cols_Ok _ _ _ P) as [Hm L]. exists m. split; [reflexivity|].
-  eapply append_columns_c_rep; eassumption.
-Qed.
+Proof. apply append_columns_gen_rep. Qed.
 
 Theorem set_columns_rep d t rows cs t' :
   TRep d t rows -> order_ok d -> set_columns d t cs = (t', Ok tt) ->
   exists m, parse_cols d cs = Ok m /\ TRep d t' (rows_of_cols (Z.to_nat m) cs).
-Proof.
-  intros R O H. unfold set_columns in H.
-  destruct (parse_cols d cs) as [m| | |] eqn:P; try (inversion H; fail).
-  destruct (parse_cols_Ok _ _ _ P) as [Hm L]. exists m. split; [reflexivity|].
-  destruct (clear t) as [t0| | |] eqn:C; try (inversion H; fail).
-  pose proof (clear_rep _ _ _ _ R C) as R0.
-  apply (append_columns_c_rep _ _ _ _ _ _ R0 O Hm L H).
-Qed.
+Proof. apply set_columns_gen_rep. Qed.
 
 (* tsk_*_table_copy: the copy stands for the same rows *)
 Theorem table_copy_rep d t rows cp :
